@@ -232,3 +232,20 @@ Theorem C12_source_deme_covariances_sum_to_variance :
     = src_cov expm Ss Slast alpha lam t self_reward (rv r) (rv r).
 Proof. move=> expm es n Ss Slast alpha lam t l0 h1 h2 h5 t0 sr; exact: source_deme_covariances_sum_to_variance. Qed.
 Print Assumptions C12_source_deme_covariances_sum_to_variance.
+
+(* a population that holds no lineage in any state of the state space contributes EXACTLY zero (the zero reward vector gives the zero
+   moment by linearity), at every end time, on any demography *)
+Theorem C12_source_unvisited_deme_contributes_zero :
+  forall (expm : seq (seq R) -> seq (seq R)),
+    (forall n A, wf n n A -> wf n n (expm A) /\ mx_of n n (expm A) = mexp (mx_of n n A)) ->
+  forall (regf : seq (seq R) -> R) (n : nat) (Ss : seq (QArith_base.Q * seq (seq R))) (Slast : seq (seq R)) (alpha : seq R)
+         (ts : seq QArith_base.Q),
+    regf (List.hd (None, Slast) (all_epochs Ss Slast)).2 <> 0 ->
+    List.Forall (fun x : QArith_base.Q * seq (seq R) => wf n n x.2) Ss -> wf n n Slast ->
+    epochs_wf (seq (seq R)) Q0 Ss -> List.Forall (fun t => QArith_base.Qle Q0 t) ts ->
+  forall (nn nl d : nat) (r : reward) (sts : seq state),
+    size sts = n -> reward_ok nn r = true -> List.Forall (fun s => n_loci s = nl) sts ->
+    List.Forall (fun s => deme_lineages s d = 0%N) sts ->
+    acc1 expm regf Ss Slast alpha ts [seq gen_reward_get OpsR nn nl (RProduct [:: r; RDeme d]) s | s <- sts] = nseq (size ts) 0.
+Proof. move=> expm es regf n Ss Slast alpha ts; exact: source_unvisited_deme_contributes_zero. Qed.
+Print Assumptions C12_source_unvisited_deme_contributes_zero.
